@@ -2,8 +2,9 @@
    ExtrOcamlNatBigInt; no Extract Constant of our own. *)
 Require Extraction.
 Require Import ExtrOcamlBasic ExtrOcamlZBigInt ExtrOcamlNatBigInt.
-From LZ4V Require Import Gen.Consts Model.Mem Model.Fast Model.HcEmit Model.HcMid Model.HcChain Model.HcChainApi Model.HcOpt Model.HcOptApi.
+From LZ4V Require Import Gen.Consts Model.Mem Model.Fast Model.HcEmit Model.HcMid Model.HcChain Model.HcChainApi Model.HcOpt Model.HcOptApi Model.HcChainDict.
 Extraction Language OCaml.
 Extraction "lz4v.ml" mem_of_list get ctget cc_init cc_set_fav cc_reset_fast cc_init_internal cc_generic chain_level cl_params
   compress_HC_fastReset_chain compress_HC_chain compress_HC_destSize_chain hc_compress ss_init ss_search
-  opt_compress cc_generic_all compress_HC_fastReset_all compress_HC_all compress_HC_destSize_all opt_level cl_target.
+  opt_compress cc_generic_all compress_HC_fastReset_all compress_HC_all compress_HC_destSize_all opt_level cl_target
+  insertAndGetWiderMatch_dict searchExtDict set empty ctset.
